@@ -239,6 +239,8 @@ func c15RunCase(t *testing.T, sys ActorSystem, c c15Case) c15Out {
 	}()
 	verifC15Hook = d.hook
 	defer func() { verifC15Hook = nil }()
+	// cases are independent: a reply channel pooled by an earlier case may hold a stale reply
+	c15DrainPools(false, true)
 	order := []int{}
 	wait := func(th *c15Thread) (c15Event, bool) {
 		select {
@@ -273,6 +275,33 @@ func c15RunCase(t *testing.T, sys ActorSystem, c c15Case) c15Out {
 			c15DrainPools(true, false)
 		case "drain_ch_pool":
 			c15DrainPools(false, true)
+		case "keep_only_ctx":
+			// empty the context pool except for the context ask op.I used (if it has been recycled):
+			// emulates "thousands of other messages went by" for the FIFO pool
+			var want *ReceiveContext
+			d.mu.Lock()
+			if r := d.res[op.I]; r != nil {
+				for c, id := range d.ctxIDs {
+					if id == r.Ctx {
+						want = c
+					}
+				}
+			}
+			d.mu.Unlock()
+			found := false
+			for more := true; more; {
+				select {
+				case c := <-contextCh:
+					if c == want {
+						found = true
+					}
+				default:
+					more = false
+				}
+			}
+			if found {
+				contextCh <- want
+			}
 		case "start":
 			i := op.I
 			res := &c15AskRes{ID: i, Reply: -1, Ctx: -1, Chan: -1, Api: op.Api, TimeoutMs: op.TimeoutMs}
